@@ -191,11 +191,15 @@ impl<T: ProgramAccount + BorshSerialize + BorshDeserialize> BorshAccount<T> {
             && self.info.data_len() > size_of::<OwnerProgramDiscriminant<T>>()
             && self.owner_pubkey() == T::OwnerProgram::ID
         {
-            let new_size = size_of::<OwnerProgramDiscriminant<T>>() + object_length(&self.data)?;
+            // Serialize the inner `T`, not the `Option<T>` holding it: the borsh `Option` tag byte is not part of
+            // the account layout read back by `decode_accounts`, `reload` and `DeserializeBorshAccount`.
+            let Some(data) = self.data.as_ref() else {
+                return Ok(());
+            };
+            let new_size = size_of::<OwnerProgramDiscriminant<T>>() + object_length(data)?;
             self.info.resize(new_size)?;
             let mut account_data = self.info.account_data_mut()?;
-            self.data
-                .serialize(&mut &mut account_data[size_of::<OwnerProgramDiscriminant<T>>()..])?;
+            data.serialize(&mut &mut account_data[size_of::<OwnerProgramDiscriminant<T>>()..])?;
         }
         Ok(())
     }
